@@ -337,9 +337,12 @@ def shrink(s):
 
 
 def py_valid(s):
+    """the Coq `valid`, re-read here only to filter shrink candidates"""
     try:
         _, _, ths = parse(s)
     except Exception:
+        return False
+    if not ths or len(ths) > 16:
         return False
     for i, ops in enumerate(ths):
         slots, skip = {}, False
@@ -351,35 +354,52 @@ def py_valid(s):
                 continue
             if skip:
                 continue
+            fail = False
             if o[0] == ":a":
                 if o[1] in slots:
                     return False
-                slots[o[1]] = 1
+                slots[o[1]] = [ALLOC_FAM[int(o[3], 16)], False]
             elif o[0] == ":o":
                 if o[1] not in slots:
                     return False
-            elif o[0] == ":f":
-                slots.pop(o[1], None)
-        if i and misuses(ops):
-            return False
+                slots[o[1]][1] = True
+            elif o[0] == ":w":
+                fail = True
+            elif o[0] == ":f" and o[1] in slots:
+                fam, bad = slots.pop(o[1])
+                fail = fam != int(o[2], 16) or bad
+            elif o[0] == ":r":
+                if o[1] in slots:
+                    fam, bad = slots.pop(o[1])
+                    fail = fam != 2 or bad
+                if not fail:
+                    slots[o[1]] = [2, False]
+            if fail:
+                if i:
+                    return False
+                skip = True
     return True
 
 
 LEVEL_TEXT = ("Machine-checked (Coq) theorems over an executable interleaving model of the thread-safe overloads: N threads, each "
               "operation split into acquire / read shared state / write back / release micro-steps scheduled arbitrarily, one "
               "non-recursive lock, the detector's table and sequence counter as the shared state, the reporter's failure path "
-              "(give the lock back, print, leave the test).  Proved for ALL schedules and scripts: mutual exclusion, every execution "
-              "equals the one-after-another execution of its critical sections, the final outstanding set is the union of the "
-              "per-thread sequential results, sequence numbers are handed out once each, no reachable deadlock, the lock is free "
-              "whenever a thread is between operations (also after a misuse report); and, over the wiring table regenerated from the "
-              "source on every run, that all eleven entry points take the lock first and perform the matching detector action. "
-              "Tied to the code by real pthreads (2-16) running the same scripts through new/new[]/malloc/realloc/free/delete under "
-              "ThreadSanitizer with pre-emption injected at lock/unlock, a real test registry and the real reporter, compared with "
-              "the extracted model and judged by the extracted model-free spec.")
+              "(give the lock back, print -- the output may allocate through the same overloads --, leave the test).  Proved for ALL "
+              "schedules and all valid scripts: mutual exclusion and atomicity of critical sections, the shared state equals the "
+              "critical sections applied one after another in lock-acquisition order, the completed run satisfies the oracle (outstanding "
+              "set = union of the per-thread sequential results, a misuse fails exactly its test, sequence numbers handed out once "
+              "each), no reachable deadlock and every schedule can be completed, the lock is held only by a thread inside a wrapper "
+              "(also after a misuse report); and, over the wiring table regenerated from the source on every run, that all eleven "
+              "entry points take the lock first and perform the matching detector action.  The pre-repair reporter (D17) and a wiring "
+              "with one unlocked wrapper are refuted by computed witnesses.  Tied to the code by real pthreads (1-16) running the same "
+              "scripts through new/new[]/malloc/realloc/free/delete under ThreadSanitizer, ASan+UBSan without exceptions, and "
+              "unsanitized, with pre-emption injected at lock/unlock, a real test registry and the real reporter, compared with the "
+              "extracted model and judged by the extracted model-free spec.")
 LEVEL_NOTE = ("PARTIAL by nature: the absence of data races and the behaviour of pthread mutexes are exhibited only by the instrumented "
-              "runs (TSan, deadline), not by the theorems; the model carries the logic (why the lock discipline makes every schedule "
-              "equivalent to a serial one).  Misuse is confined to the test thread (assumption).  Trusted: Coq kernel, extraction, "
-              "tools/gen/C10.py (wiring extraction by anchored patterns), harness, generator.  Modelled not verified: the C++ itself; "
-              "longjmp by its contract.")
-TECHNIQUE = "Coq proof over an interleaving model + wiring table regenerated from source + TSan/pthread differential run against the extracted model"
+              "runs (TSan silent, deadline / no-progress detector), not by the theorems; the model carries the logic (why the lock "
+              "discipline makes every schedule equivalent to a serial one).  Misuse is confined to the test thread (assumption).  "
+              "Trusted: Coq kernel, extraction, tools/gen/C10.py (wiring extraction by anchored patterns), harness, generator, the "
+              "schedule derived from the seed in ocaml/c10_driver.ml.  Modelled not verified: the C++ itself; longjmp by its contract; "
+              "the hash table as a keyed list; the output's allocation while printing as one step that needs the lock free.")
+TECHNIQUE = "Coq proof over an interleaving model + wiring table regenerated from source + TSan/ASan/pthread differential run against the extracted model"
 READY = False
